@@ -176,6 +176,9 @@ def parseOp (n : Names) (fs : List String) : Option Op :=
     some (.setClient { id := id, isPublic := parseBool pub, grants := decList grants, scopes := decList scopes,
                        audience := decList aud, redirects := decList redirects })
   | ["advance", d] => d.toNat?.map .advance
+  -- "authorizeRU": an ordinary authorization request that also carries a `request_uri` outside the PAR prefix
+  -- and no `openid` scope: the parameter is ignored (it is no pushed request and no OIDC request object)
+  | ["authorizeRU", client, rts, redirect, secure, state, nonce, scopes, aud, gs, ga, sub, challenge, method, _]
   | ["authorize", client, rts, redirect, secure, state, nonce, scopes, aud, gs, ga, sub, challenge, method] =>
     some (.authorize { clientId := client, responseTypes := decList rts, redirect := redirect,
                        redirectSecure := parseBool secure, state := state, nonce := nonce,
